@@ -67,6 +67,8 @@ func run(c *core.Ctx) {
 		pool(c, f, "restoreRDBFile")
 	}
 	LoaderRules(c)
+	KeyExistsRules(c)
+	c.Expect("R7.key-exists", 2)
 	c.Expect("R1.private", 4)
 	c.Expect("R2.pair", 2)
 	c.Expect("R2.reach", 2)
